@@ -148,6 +148,40 @@ Definition lf_eqb (a b : lf_msg) : bool :=
   | _, _ => false
   end.
 
+Definition dmq_eqb (a b : dmq_msg) : bool :=
+  beqb (dq_id a) (dq_id b) && beqb (dq_body a) (dq_body b) && (dq_kes_period a =? dq_kes_period b) &&
+  (dq_expires_at a =? dq_expires_at b) && beqb (dq_kes_sig a) (dq_kes_sig b) && beqb (dq_kes_vk a) (dq_kes_vk b) &&
+  (dq_issue a =? dq_issue b) && (dq_start_kes a =? dq_start_kes b) && beqb (dq_cert_sig a) (dq_cert_sig b) &&
+  beqb (dq_cold_vk a) (dq_cold_vk b).
+Definition dmq_reason_eqb (a b : dmq_reason) : bool :=
+  match a, b with
+  | DrInvalid s, DrInvalid s' | DrOther s, DrOther s' => beqb s s'
+  | DrAlreadyReceived, DrAlreadyReceived | DrExpired, DrExpired => true
+  | _, _ => false
+  end.
+Definition lms_eqb (a b : lms_msg) : bool :=
+  match a, b with
+  | LmsSubmit x, LmsSubmit y => dmq_eqb x y
+  | LmsReject x, LmsReject y => dmq_reason_eqb x y
+  | LmsAccept, LmsAccept | LmsDone, LmsDone => true
+  | _, _ => false
+  end.
+Definition lmn_eqb (a b : lmn_msg) : bool :=
+  match a, b with
+  | LmnRequestNonBlocking, LmnRequestNonBlocking | LmnRequestBlocking, LmnRequestBlocking
+  | LmnClientDone, LmnClientDone => true
+  | LmnReplyNonBlocking l h, LmnReplyNonBlocking l' h' => list_eqb dmq_eqb l l' && Bool.eqb h h'
+  | LmnReplyBlocking l, LmnReplyBlocking l' => list_eqb dmq_eqb l l'
+  | _, _ => false
+  end.
+Definition lq_eqb (a b : lq_req) : bool :=
+  match a, b with
+  | LqBlock e t, LqBlock e' t' => (e =? e') && (t =? t')
+  | LqHardFork t, LqHardFork t' => t =? t'
+  | LqSystemStart, LqSystemStart | LqChainBlockNo, LqChainBlockNo | LqChainPoint, LqChainPoint => true
+  | _, _ => false
+  end.
+
 (* ---- decoder differential: arbitrary (mutated / truncated) input against the model
         decoder. The implementation result is canonicalised by the harness to the
         re-encoding of the decoded message and the number of bytes consumed. ---- *)
@@ -162,7 +196,7 @@ Definition dr_eqb (a b : dr) : bool :=
   end.
 (* 0 keepalive, 1 blockfetch, 2/3/4 chainsync header/block/skipped, 5 txsubmission,
    6/7 peersharing with u32/u16 ports, 8/9 handshake n2n/n2c, 10 localstate, 11 txmonitor,
-   12 leiosnotify, 13 leiosfetch *)
+   12 leiosnotify, 13 leiosfetch, 14 localmsgsubmission, 15 localmsgnotification *)
 Definition dec_run (k : Z) (bs : list Z) : dr :=
   if k =? 0 then to_dr ka_enc bs (ka_dec bs)
   else if k =? 1 then to_dr bf_enc bs (bf_dec bs)
@@ -177,7 +211,9 @@ Definition dec_run (k : Z) (bs : list Z) : dr :=
   else if k =? 10 then to_dr ls_enc bs (ls_dec bs)
   else if k =? 11 then to_dr tm_enc bs (tm_dec bs)
   else if k =? 12 then to_dr ln_enc bs (ln_dec bs)
-  else to_dr lf_enc bs (lf_dec bs).
+  else if k =? 13 then to_dr lf_enc bs (lf_dec bs)
+  else if k =? 14 then to_dr lms_enc bs (lms_dec bs)
+  else to_dr lmn_enc bs (lmn_dec bs).
 
 (* ---- cases ---- *)
 Inductive case : Type :=
@@ -195,6 +231,9 @@ Inductive case : Type :=
 | CTm (m : tm_msg) (bs : list Z)
 | CLn (m : ln_msg) (bs : list Z)
 | CLf (m : lf_msg) (bs : list Z)
+| CLms (m : lms_msg) (bs : list Z)
+| CLmn (m : lmn_msg) (bs : list Z)
+| CLq (m : lq_req) (bs : list Z)
 | CDec (k : Z) (bs : list Z) (res : dr).
 
 Section Chk.
@@ -224,6 +263,9 @@ Definition case_ok (c : case) : bool :=
   | CTm m bs => chk tm_wf tm_enc tm_dec tm_eqb m bs
   | CLn m bs => chk ln_wf ln_enc ln_dec ln_eqb m bs
   | CLf m bs => chk lf_wf lf_enc lf_dec lf_eqb m bs
+  | CLms m bs => chk lms_wf lms_enc lms_dec lms_eqb m bs
+  | CLmn m bs => chk lmn_wf lmn_enc lmn_dec lmn_eqb m bs
+  | CLq m bs => chk lq_wf lq_enc lq_dec lq_eqb m bs
   | CDec k bs res => dr_eqb (dec_run k bs) res
   end.
 
@@ -245,5 +287,8 @@ Definition case_out (c : case) : list Z * bool * option dr :=
   | CTm m bs => o (out tm_enc tm_dec tm_eqb m bs)
   | CLn m bs => o (out ln_enc ln_dec ln_eqb m bs)
   | CLf m bs => o (out lf_enc lf_dec lf_eqb m bs)
+  | CLms m bs => o (out lms_enc lms_dec lms_eqb m bs)
+  | CLmn m bs => o (out lmn_enc lmn_dec lmn_eqb m bs)
+  | CLq m bs => o (out lq_enc lq_dec lq_eqb m bs)
   | CDec k bs _ => (([], true), Some (dec_run k bs))
   end.
